@@ -81,6 +81,10 @@ type secExec struct {
 	exports map[string]*secExport
 	expOrd  []string
 	errs    []string // every error string returned by the implementation
+	// the transaction the last successful SignRawTx returned (oracle tokens `w:`, eng_sec_oracle.go)
+	lastSigned *wire.MsgTx
+	// the transaction the wallet built in the last `autosign` op (oracle token `t=`)
+	lastAuto *wire.MsgTx
 }
 
 func (x *secExec) env() *WEnv {
@@ -232,10 +236,37 @@ func (x *secExec) Exec(a []string) string {
 		return x.scan()
 	case a[0] == "txlock" && len(a) == 4:
 		return x.txLock(a[1], a[2], a[3])
-	case a[0] == "sign" && len(a) == 5:
-		return x.sign(a[1], a[2], a[3], a[4])
+	case a[0] == "sign" && len(a) >= 5:
+		res := x.sign(a[1], a[2], a[3], a[4])
+		if len(a) > 5 && res != "bad-op" {
+			// the oracle tokens of the line (computed when the stream was generated) must be the facts of THIS run
+			if strings.Join(x.signOracle(a[1], flagTok(a[3]), a[4]), " ") != strings.Join(a[5:], " ") {
+				res += "!oracle-drift"
+			}
+		}
+		return res
 	case a[0] == "autosign" && len(a) >= 6:
-		return x.autosign(a[1:])
+		// oracle tokens (if any) follow the must|may word
+		end := len(a)
+		for i := 5; i < len(a); i++ {
+			if a[i] == "must" || a[i] == "may" {
+				end = i + 1
+				break
+			}
+		}
+		res := x.autosign(a[1:end])
+		if end < len(a) && res != "bad-op" {
+			// the wallet orders the outputs of a transaction it builds by Go map iteration (AutoCreateRawTransaction takes a
+			// map of amounts): digests, signatures and witnesses of a multi-output draft differ from run to run, so only
+			// the run-independent facts (inputs chosen, addresses, keys, redeem-script hashes) are compared here
+			if got := strings.Join(secStableToks(x.autoOracle(a[1], flagTok(a[3]))), " "); got != strings.Join(secStableToks(a[end:]), " ") {
+				if verifDebug {
+					fmt.Fprintln(os.Stderr, "  [oracle drift] recomputed:", got)
+				}
+				res += "!oracle-drift"
+			}
+		}
+		return res
 	}
 	return ledOp(e, a)
 }
@@ -285,7 +316,10 @@ func (x *secExec) create(w, pass string, bits int) string {
 	if _, dup := e.wallets[w]; dup {
 		return "bad-op"
 	}
-	id, mn, _, err := e.wm.CreateWallet(pass, "", bits)
+	var id, mn string
+	var err error
+	// the entropy of wallet W is a function of its name (a value, see eng_sec_oracle.go)
+	secDetCreate(w, bits, func() { id, mn, _, err = e.wm.CreateWallet(pass, "", bits) })
 	if err != nil {
 		x.note(err)
 		return secErrClass(err)
@@ -1283,7 +1317,14 @@ func (x *secExec) checkSigned(orig *wire.MsgTx, bs []byte, ht txscript.SigHashTy
 func (x *secExec) signCore(pass, flag string, orig *wire.MsgTx) (string, string) {
 	work := cloneTx(orig)
 	before := cloneTx(orig)
+	x.lastSigned = nil
 	bs, err := x.e.wm.SignRawTx([]byte(pass), flag, work)
+	if err == nil {
+		var st wire.MsgTx
+		if st.SetBytes(bs, wire.Packet) == nil {
+			x.lastSigned = &st
+		}
+	}
 	cls := secErrClass(err)
 	bad := ""
 	if err != nil {
@@ -1327,6 +1368,7 @@ func (x *secExec) txLock(t, lock, payload string) string {
 }
 
 func (x *secExec) sign(w, passHex, flagT, t string) string {
+	x.lastSigned = nil
 	p, ok := passTok(passHex)
 	ti, ok2 := x.e.txs[t]
 	if !ok || !ok2 {
@@ -1348,6 +1390,7 @@ func (x *secExec) sign(w, passHex, flagT, t string) string {
 //   stake FROM|- A:AMT:FROZEN  LOCK FEE
 //   bind  FROM|- HOLDER:N:AMT  FEE
 func (x *secExec) autosign(a []string) string {
+	x.lastAuto, x.lastSigned = nil, nil
 	e := x.e
 	w := a[0]
 	p, ok := passTok(a[1])
@@ -1453,6 +1496,7 @@ func (x *secExec) autosign(a []string) string {
 		return "FAIL:decode"
 	}
 	defer e.wm.ClearUsedUTXOMark(&tx)
+	x.lastAuto = cloneTx(&tx)
 	cls, bad := x.signCore(p, flag, &tx)
 	if bad != "" {
 		return "FAIL:" + cls + "!" + bad
